@@ -1,7 +1,8 @@
 (* Props/C12.v — property C12: a glob set answers like its member globs; globs mean what is documented.
    Only statements; every proof is one `exact`.  The Check lines pin the statements. *)
 From RG Require Import Base.Bytes Model.Glob Model.GlobSet Spec.GlobSem Spec.GlobSetSem Spec.GlobSyntax
-  Proofs.GlobStrategyProofs Proofs.GlobSetProofs Proofs.GlobSetIsMatchProofs Proofs.GlobParseProofs Proofs.GlobRenderProofs.
+  Proofs.GlobStrategyProofs Proofs.GlobSetProofs Proofs.GlobSetIsMatchProofs Proofs.GlobParseProofs Proofs.GlobRenderProofs
+  Proofs.GlobAltRenderProofs Proofs.GlobAltSemProofs.
 
 (* 1. every match strategy answers as the glob's regex: for all token lists (parser-produced or not),
       all four options, all paths (arbitrary bytes), the strategy MatchStrategy::new selects, evaluated
@@ -82,6 +83,103 @@ Example ex_documented_syntax :
   glob_tokens g = [TRecPrefix; TLit 97; TStar; TClass false [(98, 100); (46, 46)]%N; TRecZeroOrMore; TLit 42; TAny; TRecSuffix].
 Proof. vm_compute. auto. Qed.
 
+(* 6. ... and alternates.  Documentation: "`{a,b}` matches `a` or `b` where `a` and `b` are arbitrary glob
+      patterns. (N.B. Nesting `{...}` is not currently allowed.)"  Syntax (Spec/GlobSyntax.v aitem/apiece): an
+      alternation `{b1,…,bn}` (n >= 1) may stand wherever an item of a component may stand; each alternative is
+      empty or a glob of the alternate-free syntax of statement 5 (so it may contain '/', `**/`, `/**/`, `/**`,
+      `\,`), other than the lone `**` (statement 6c).  For every such glob the parser applied to its text yields
+      exactly the documented tokens — Alternates [tokens of b1; …; tokens of bn], each alternative read as a glob of
+      its own — with the alternatives of each Alternates token in the parser's storage order, which is the
+      reverse of the order written (`pop_alternate` pops the stack): [parser_order].  A ',' outside braces is an
+      ordinary character (AComma: Literal ','); between braces a literal comma is `\,`.  Statement 6a says the
+      order is immaterial. *)
+Theorem parse_documented_syntax_alt :
+  forall (o : gopts) (ps : list apiece),
+    backslash_escape o = true -> aglob_ok ps = true ->
+    build o (render_aglob ps) = Some (Ok (parser_order (aglob_tokens ps))).
+Proof. exact build_render_alt_proof. Qed.
+Print Assumptions parse_documented_syntax_alt.
+
+(* 6a. the order of the alternatives of an Alternates token does not matter for matching: all token lists. *)
+Theorem alt_order_irrelevant :
+  forall (o : gopts) (ts : list token) (p : bytes), tmatch o (parser_order ts) p = tmatch o ts p.
+Proof. exact tmatch_order_proof. Qed.
+Print Assumptions alt_order_irrelevant.
+
+(* 6b. "`{a,b}` matches `a` or `b`": an Alternates token followed by a rest matches exactly when one of its
+       alternatives followed by that rest matches (all alternatives kept: none is dropped by the
+       empty-alternates rule); and the glob `{b1,…,bn}` of the documented syntax, parsed, matches exactly the
+       paths that one of b1 … bn matches as a glob of its own (empty alternatives need empty_alternates,
+       as documented for GlobBuilder::empty_alternates). *)
+Theorem alt_matches_some_alternative :
+  forall (o : gopts) (alts : list (list token)) (r : list token) (k : bytes -> bool) (p : bytes),
+    alts <> [] -> forallb (branch_kept o) alts = true ->
+    tmk o (TAlt alts :: r) k p = existsb (fun a => tmk o a (tmk o r k) p) alts.
+Proof. exact tmk_alt_all_kept. Qed.
+Print Assumptions alt_matches_some_alternative.
+
+Theorem alt_glob_matches_some_alternative :
+  forall (o : gopts) (bs : list (list gpiece)) (p : bytes),
+    backslash_escape o = true -> bs <> [] -> forallb branch_ok bs = true ->
+    (empty_alternates o = true \/ forallb (fun b => negb (match b with [] => true | _ => false end)) bs = true) ->
+    exists ts, build o (render_aglob [APComp [AAlt bs]]) = Some (Ok ts) /\
+               tmatch o ts p = existsb (fun b => tmatch o (glob_tokens b) p) bs.
+Proof. exact alt_glob_matches_some_branch_proof. Qed.
+Print Assumptions alt_glob_matches_some_alternative.
+
+(* 6c. the exclusion in statement 6 is necessary: the documentation calls `**` a glob ("the glob `**` is allowed
+       and means match everything") and the alternatives "arbitrary glob patterns", but between braces the
+       parser reads a lone `**` as two `*` (have_tokens is false and the next character is ',' or '}', not a
+       separator).  Witness: `{**,b}`, literal_separator on, path "x/y": the documented tokens match, the
+       parser's tokens do not (so both the token statement 6 and the reading 6b fail for it).  Replayed on the real crate (notes/C12.md): GlobMatcher of `{**,b}` rejects
+       "x/y", `rg --files -g '/{**,b}'` omits x/y while `-g '/**'` lists it. *)
+Theorem parse_documented_syntax_alt_lone_dstar_refuted :
+  exists (o : gopts) (bs : list (list gpiece)) (ts : list token) (p : bytes),
+    backslash_escape o = true /\ bs <> [] /\ forallb branch_ok_doc bs = true /\
+    forallb (fun b => negb (match b with [] => true | _ => false end)) bs = true /\
+    build o (render_aglob [APComp [AAlt bs]]) = Some (Ok ts) /\
+    ts <> parser_order (aglob_tokens [APComp [AAlt bs]]) /\
+    existsb (fun b => tmatch o (glob_tokens b) p) bs = true /\ tmatch o ts p = false.
+Proof.
+  exists (mk_gopts false true true false), [[PDStar]; [PComp [IPlain 98]]],
+         [TAlt [[TLit 98]; [TStar; TStar]]], [120; 47; 121]%N.
+  vm_compute. repeat split; try reflexivity; discriminate.
+Qed.
+Print Assumptions parse_documented_syntax_alt_lone_dstar_refuted.
+
+(* 6d. statement 6 extends statement 5: a glob of the alternate-free syntax, seen as a tree of the syntax with
+       alternates, has the same text, the same tokens and the same well-formedness verdict (so 5 is the
+       alternation-free instance of 6). *)
+Theorem alt_syntax_conservative :
+  forall ps : list gpiece,
+    render_aglob (map piece_inj ps) = render_glob ps /\
+    parser_order (aglob_tokens (map piece_inj ps)) = glob_tokens ps /\
+    aglob_ok (map piece_inj ps) = glob_ok ps.
+Proof. exact alt_syntax_conservative_proof. Qed.
+Print Assumptions alt_syntax_conservative.
+
+(* non-vacuity of 6, 6b: `**/x,{a/**,\,,}*.[ch]/{**/m,n}` *)
+Example ex_documented_syntax_alt :
+  let o := mk_gopts false true true true in
+  let g := [APDStar;
+            APComp [AIt (IPlain 120); AComma; AAlt [[PComp [IPlain 97]; PDStar]; [PComp [IEsc 44]]; []]; AIt IStar;
+                    AIt (IPlain 46); AIt (IClass [(99, 99); (104, 104)]%N)];
+            APComp [AAlt [[PDStar; PComp [IPlain 109]]; [PComp [IPlain 110]]]]] in
+  aglob_ok g = true /\
+  render_aglob g = [42;42;47; 120; 44; 123; 97;47;42;42; 44; 92;44; 44; 125; 42; 46; 91;99;104;93; 47;
+                    123; 42;42;47;109; 44; 110; 125]%N /\
+  aglob_tokens g = [TRecPrefix; TLit 120; TLit 44; TAlt [[TLit 97; TRecSuffix]; [TLit 44]; []]; TStar; TLit 46;
+                    TClass false [(99, 99); (104, 104)]%N; TLit 47; TAlt [[TRecPrefix; TLit 109]; [TLit 110]]] /\
+  build o (render_aglob g) = Some (Ok (parser_order (aglob_tokens g))) /\
+  parser_order (aglob_tokens g) = [TRecPrefix; TLit 120; TLit 44; TAlt [[]; [TLit 44]; [TLit 97; TRecSuffix]]; TStar; TLit 46;
+                    TClass false [(99, 99); (104, 104)]%N; TLit 47; TAlt [[TLit 110]; [TRecPrefix; TLit 109]]].
+Proof. vm_compute. repeat split; reflexivity. Qed.
+Example ex_alt_matches :
+  let o := mk_gopts false true true false in
+  forallb (branch_kept o) [[TLit 97]; [TLit 98; TStar]] = true /\
+  tmatch o [TAlt [[TLit 97]; [TLit 98; TStar]]; TLit 46] [98; 120; 46]%N = true.
+Proof. vm_compute. auto. Qed.
+
 (* non-vacuity: `**/*.a` parses to [RecursivePrefix, ZeroOrMore, '.', 'a'], selects the Extension
    strategy and matches "b/x.a"; the set {*.a, b/x.a, a/**/b} reports [0;1] for "b/x.a" *)
 Example ex_parse :
@@ -116,3 +214,24 @@ Check parse_documented_syntax :
   forall (o : gopts) (ps : list gpiece),
     backslash_escape o = true -> glob_ok ps = true ->
     build o (render_glob ps) = Some (Ok (glob_tokens ps)).
+Check parse_documented_syntax_alt :
+  forall (o : gopts) (ps : list apiece),
+    backslash_escape o = true -> aglob_ok ps = true ->
+    build o (render_aglob ps) = Some (Ok (parser_order (aglob_tokens ps))).
+Check alt_order_irrelevant :
+  forall (o : gopts) (ts : list token) (p : bytes), tmatch o (parser_order ts) p = tmatch o ts p.
+Check alt_matches_some_alternative :
+  forall (o : gopts) (alts : list (list token)) (r : list token) (k : bytes -> bool) (p : bytes),
+    alts <> [] -> forallb (branch_kept o) alts = true ->
+    tmk o (TAlt alts :: r) k p = existsb (fun a => tmk o a (tmk o r k) p) alts.
+Check alt_glob_matches_some_alternative :
+  forall (o : gopts) (bs : list (list gpiece)) (p : bytes),
+    backslash_escape o = true -> bs <> [] -> forallb branch_ok bs = true ->
+    (empty_alternates o = true \/ forallb (fun b => negb (match b with [] => true | _ => false end)) bs = true) ->
+    exists ts, build o (render_aglob [APComp [AAlt bs]]) = Some (Ok ts) /\
+               tmatch o ts p = existsb (fun b => tmatch o (glob_tokens b) p) bs.
+Check alt_syntax_conservative :
+  forall ps : list gpiece,
+    render_aglob (map piece_inj ps) = render_glob ps /\
+    parser_order (aglob_tokens (map piece_inj ps)) = glob_tokens ps /\
+    aglob_ok (map piece_inj ps) = glob_ok ps.
